@@ -54,13 +54,6 @@ func putReaderBuffer(b *bytes.Buffer) {
 	}
 }
 
-// readerBufferSlice returns the buffer the message body is read into and
-// decoded from. Decoded values (Address, Unknown, IPv4, ...) keep referring
-// to it, so it must not come from the pool, which is reused by the next read.
-func readerBufferSlice(buf *bytes.Buffer, l int) []byte {
-	return make([]byte, l)
-}
-
 // ReadMessage reads a binary stream from the reader and uses the given
 // dictionary to parse it.
 func ReadMessage(reader io.Reader, dictionary *dict.Parser) (*Message, error) {
@@ -115,15 +108,7 @@ func (m *Message) readHeader(r io.Reader, buf *bytes.Buffer) (cmd *dict.Command,
 }
 
 func (m *Message) readBody(r io.Reader, buf *bytes.Buffer, cmd *dict.Command, stream uint) error {
-	var err error
-	var n int
-	b := readerBufferSlice(buf, int(m.Header.MessageLength-HeaderLength))
-	msr, isMulti := r.(MultistreamReader)
-	if isMulti {
-		n, _, err = msr.ReadAtLeast(b, len(b), stream)
-	} else {
-		n, err = io.ReadFull(r, b)
-	}
+	b, n, err := readBodyBytes(r, int(m.Header.MessageLength-HeaderLength), stream)
 	if err != nil {
 		return fmt.Errorf("readBody Error: %v, %d bytes read", err, n)
 	}
@@ -140,6 +125,40 @@ func (m *Message) readBody(r io.Reader, buf *bytes.Buffer, cmd *dict.Command, st
 		return err
 	}
 	return nil
+}
+
+// bodyReadChunk bounds how much memory is set aside for a message body
+// ahead of the bytes that have actually arrived: the length in the header
+// is only a claim made by the peer.
+const bodyReadChunk = 64 << 10
+
+// readBodyBytes reads a message body of l bytes in chunks of at most
+// bodyReadChunk bytes, growing the buffer as the data arrives.
+func readBodyBytes(r io.Reader, l int, stream uint) (b []byte, n int, err error) {
+	msr, isMulti := r.(MultistreamReader)
+	for n < l {
+		k := l - n
+		if k > bodyReadChunk {
+			k = bodyReadChunk
+		}
+		if cap(b)-n < k {
+			nb := make([]byte, n, 2*cap(b)+k)
+			copy(nb, b)
+			b = nb
+		}
+		b = b[:n+k]
+		var nn int
+		if isMulti {
+			nn, _, err = msr.ReadAtLeast(b[n:], k, stream)
+		} else {
+			nn, err = io.ReadFull(r, b[n:])
+		}
+		n += nn
+		if err != nil {
+			return b[:n], n, err
+		}
+	}
+	return b, n, nil
 }
 
 func (m *Message) maxAVPsFor(cmd *dict.Command) int {
